@@ -20,6 +20,7 @@ def payloadType (p : Nat) : String :=
   match p with
   | 0 => "actor.PID" | 1 => "actor.Ping" | 2 => "remote.TestMessage" | 3 => "remote.TestMessage"
   | 4 => "actor.PID" | 6 => "actor.Pong" | 7 => "remote.TestMessage" | 9 => "actor.Ping"
+  | 10 => "verifdyn.Alarm" | 11 => "verifdyn.Order"   -- described at run time: two proto types, one Go type
   | _ => "?"
 
 def wireCodec : Codec Nat := poolCodec payloadType [4, 9] [5, 8]
